@@ -98,7 +98,7 @@ RunOK(e) == LET x == e.expect IN
    /\ (F("clean") => Clean(e))
    /\ (Clean(e) =>
         CASE x.kind = "refuse" -> (F("refuse") => e.exit # 0 /\ Len(e.probes) = 0 /\ Len(e.conns) = 0 /\ Len(e.records) = 0)    \* C02: refused before anything is sent
-          [] x.kind = "sigint" -> (F("clean") => /\ (e.sigintT > 0 => e.exitT <= e.sigintT + ExitBound)                              \* C12
+          [] x.kind \in {"sigint", "packetsigint"} -> (F("clean") => /\ (e.sigintT > 0 => e.exitT <= e.sigintT + ExitBound)                              \* C12
                                                   /\ \A i \in 1..Len(e.probes) : DstOf(x, e.probes[i]) \in Denote(x.target))
           [] x.kind = "app" -> (F("coverage") => e.exit = 0 /\ ConnsOK(e))
           [] x.kind = "apphttp" -> (F("coverage") => e.exit = 0 /\ ConnsHttpOK(e))
